@@ -322,6 +322,46 @@ theorem best_is_top (cfg : Cfg) (all : List Cand) :
         obtain ⟨_, _, _, _, _, _, _, h⟩ := ranked_row_spec cfg all s m hs' hm
         omega
 
+/-- **final_model_spec** (create_results).  If no model is eligible the base model
+    (index 0) is reported.  Otherwise the reported model is eligible, its row has
+    rank 1, and no eligible model has a strictly smaller criterion value (hence
+    none a strictly smaller rank); in particular the base model is reported only
+    when nothing is eligible or when it is itself eligible and top-ranked. -/
+theorem final_model_spec (cfg : Cfg) (all : List Cand) :
+    ((∀ r ∈ rankModels cfg all, r.rank = none) → finalModel (rankModels cfg all) = 0) ∧
+    ((∃ r ∈ rankModels cfg all, r.rank.isSome = true) →
+      ∃ c v top, all[finalModel (rankModels cfg all)]? = some c ∧
+        Eligible cfg all (finalModel (rankModels cfg all)) c ∧
+        top ∈ rankModels cfg all ∧ top.idx = finalModel (rankModels cfg all) ∧ top.rank = some 1 ∧ top.rv = .num v ∧
+        (∀ j c' w, all[j]? = some c' → Eligible cfg all j c' → c'.rv = .num w → v ≤ w + c'.pen) ∧
+        (finalModel (rankModels cfg all) = 0 → Eligible cfg all 0 c)) := by
+  obtain ⟨h1, h2⟩ := best_is_top cfg all
+  constructor
+  · intro h
+    unfold finalModel
+    rw [h1 h]; rfl
+  · rintro ⟨r, hr, hsome⟩
+    obtain ⟨top, rest, v, hrows, hbest, hrank, hrv, ⟨c, hc, he⟩, hmin⟩ := h2 r hr hsome
+    have hfin : finalModel (rankModels cfg all) = top.idx := by
+      unfold finalModel; rw [hbest]; rfl
+    have htop : top ∈ rankModels cfg all := by rw [hrows]; exact List.mem_cons_self ..
+    refine ⟨c, v, top, ?_, ?_, htop, hfin.symm, hrank, hrv, ?_, ?_⟩
+    · rw [hfin]; exact hc
+    · rw [hfin]; exact he
+    · intro j c' w hj hej hw
+      obtain ⟨r', hr', hidx, hsome'⟩ := (ranked_iff_eligible cfg all j).mpr ⟨c', hj, hej⟩
+      obtain ⟨k, hk⟩ := Option.isSome_iff_exists.mp hsome'
+      obtain ⟨c'', w', hc'', hw', _, hrv', _, _⟩ := ranked_row_spec cfg all r' k hr' hk
+      rw [hidx, hj] at hc''
+      cases hc''
+      rw [hw] at hw'
+      cases hw'
+      exact hmin r' hr' _ hrv'
+    · intro h0
+      rw [hfin] at h0
+      rw [h0] at hc he
+      exact he
+
 /-! ## base model failed: the NaN-reference branch -/
 
 /-- **nan_reference_branch.**  When the base model has no criterion value
